@@ -674,7 +674,7 @@ fn seg_snap(run: &mut Runner, r: &mut R) {
 fn seg_uniq(run: &mut Runner, r: &mut R) {
     run.reset(default_cfg());
     let two_col = r.random_bool(0.4);
-    let late_index = r.random_bool(0.35);
+    let late_index = r.random_bool(0.5);
     let mut t = rand_table(r, "t1", false);
     t.def.cols[1].nn = two_col || r.random_bool(0.5); // no NULL in a UNIQUE column: finding NullInUniqueColumnRejected
     let ucols: Vec<usize> = if two_col { vec![1, 2] } else { vec![1] };
@@ -695,9 +695,20 @@ fn seg_uniq(run: &mut Runner, r: &mut R) {
         // finding FailedCreateIndexUnclean), then the history proper
         let k = r.random_range(0..6);
         for _ in 0..k { let id = t.next_id; t.next_id += 1; let c1 = r.random_range(0..4); let st = ins(id, c1, &t, r); if run.auto(&st).is_ok() { keys.push((id, c1)); } }
+        // some of them are deleted again (dead, un-vacuumed rows in front of live ones), sometimes re-inserted
+        let ndel = if keys.is_empty() { 0 } else { r.random_range(0..=keys.len().min(2)) };
+        for _ in 0..ndel {
+            let (id, c1) = keys.remove(r.random_range(0..keys.len()));
+            let idc = col(&t, "t1", 0, 0);
+            run.auto(&Stmt::Delete { tbl: "t1".into(), wher: E::Bin("eq", Box::new(idc), Box::new(E::Lit(V::Int(id)))), has_where: true });
+            if r.random_bool(0.4) { let st = ins(id, c1, &t, r); if run.auto(&st).is_ok() { keys.push((id, c1)); } }
+        }
         if r.random_bool(0.3) { run.vacuum(); }
         let o = run.auto(&Stmt::Index { name: "t1_u".into(), tbl: "t1".into(), cols: ucols.iter().map(|c| (*c, t.def.cols[*c - 1].name.clone())).collect() });
         if o.is_ok() { indexed = true; }
+        run.auto(&sel);
+        // every live key must now be protected by the new index
+        for (id, c1) in keys.clone() { let st = ins(id, c1, &t, r); if run.auto(&st).is_ok() { keys.push((id, c1)); } }
         run.auto(&sel);
     }
     let n = r.random_range(18..40);
